@@ -146,8 +146,8 @@ def facts():
     mac = norm(strip_comments(e))
     f["batch_carries_row_count"] = (
         len(with_len) == 1 and with_len[0] == "Self{entities,len}"
-        and "((); $n:expr)=>{unsafe{$crate::entities::Batch::new_unchecked_with_len($crate::entities::Null,$n)}};".replace(" ", "") in mac
-        and "$crate::entities::Batch::new_unchecked_with_len($crate::entities!(@transpose[]$(($($components),*)),+),<[()]>::len(&[$($crate::entities!(@unit$($components),*)),+]),)" in mac
+        and "(();$n:expr)=>{{letlen:usize=$n;unsafe{$crate::entities::Batch::new_unchecked_with_len($crate::entities::Null,len)}}};" in mac
+        and "letcolumns=$crate::entities!(@transpose[]$(($($components),*)),+);letlen=<[()]>::len(&[$($crate::entities!(@unit$($components),*)),+]);unsafe{$crate::entities::Batch::new_unchecked_with_len(columns,len)}" in mac
         and "(@unit$($components:expr),*)=>{()};" in mac
         and "letlength=entities.len();" in wm
         and "entities::Batch::new_unchecked_with_len(Registry::canonical(entities.entities),length)" in wm
@@ -255,7 +255,7 @@ def emit(f):
               "new_calls_with_resources", "with_resources_calls_from_raw_parts", "default_calls_checked_ctor",
               "deserialize_calls_from_raw_parts", "assert_null_is_noop", "assert_cons_inserts_then_recurses",
               "batch_new_asserts_check_len_first", "batch_new_unchecked_is_unsafe", "batch_len_is_first_column",
-              "only_new_unchecked_builds_batch", "batch_carries_row_count", "len_null", "len_cons",
+              "only_new_unchecked_builds_batch", "batch_carries_row_count", "entities_macro_unsafe_holds_no_metavariable", "len_null", "len_cons",
               "world_send_needs_components_send", "world_sync_needs_components_sync", "iter_send_needs_views_send",
               "entries_send_needs_views_send", "parview_ref_needs_sync", "parview_mut_needs_send", "parviews_need_send",
               "world_entry_query_borrows_receiver", "entries_entry_query_borrows_receiver", "world_query_borrows_receiver",
@@ -267,7 +267,7 @@ def emit(f):
               "de_column_returns_owned_vec",
               "clear_sets_length_first", "adopt_requires_no_allocation",
               "remove_defers_drops", "remove_decrements_length_first", "remove_frees_identifier_first",
-              "entry_remove_drops_last", "clear_subtracts_len_per_archetype", "extend_counts_after_storing",
+              "entry_remove_drops_last", "clear_subtracts_len_per_archetype", "extend_counts_after_storing", "clear_visits_in_identifier_order",
               "clone_from_hides_rows_first", "clone_from_writes_back_on_unwind", "clone_from_identifier_column_written_back",
               "world_clone_from_forgets_identifiers_first", "world_clone_from_clears_on_unwind",
               "resource_reshape_indices_per_level",
@@ -493,8 +493,13 @@ def order_facts():
     bs = [norm(b) for q, n, b in fn_bodies(at) if n == "clear"]
     wsrc = read("src/world/mod.rs")
     wc_ = [norm(b) for q, n, b in fn_bodies(wsrc) if n == "clear"]
+    sorted_first = "letmutarchetypes=self.iter_mut().collect::<Vec<_>>();archetypes.sort_unstable_by(|a,b|{unsafe{a.identifier().as_slice().cmp(b.identifier().as_slice())}});"
+    # (finding F6) the archetypes are cleared in the order of their identifiers' bytes, not in table order
+    f["clear_visits_in_identifier_order"] = len(bs) == 1 and bs[0].startswith(sorted_first) and \
+        bs[0][len(sorted_first):] == "forarchetypeinarchetypes{*len-=archetype.len();unsafe{archetype.clear(entity_allocator)};}"
     f["clear_subtracts_len_per_archetype"] = (
-        len(bs) == 1 and bs[0] == "forarchetypeinself.iter_mut(){*len-=archetype.len();unsafe{archetype.clear(entity_allocator)};}"
+        len(bs) == 1 and bs[0] in ("forarchetypeinself.iter_mut(){*len-=archetype.len();unsafe{archetype.clear(entity_allocator)};}",
+                                  sorted_first + "forarchetypeinarchetypes{*len-=archetype.len();unsafe{archetype.clear(entity_allocator)};}")
         and len(wc_) == 1 and "self.archetypes.clear(&mutself.entity_allocator,&mutself.len);" in wc_[0] and "self.len=0" not in wc_[0])
     we = [norm(b) for q, n, b in fn_bodies(wsrc) if n == "extend" and "canonical_entities" in b]
     if len(we) != 1:
@@ -585,7 +590,18 @@ def macro_facts():
     others = [a for a in unchecked if a not in cloned] + with_len
     f["entities_macro_unchecked_arms_known"] = (len(cloned) == 1 and len(others) == 3
         and sum(1 for a in others if "@transpose[]" in a) == 1
-        and sum(1 for a in others if "new_unchecked($crate::entities::Null)" in a or "new_unchecked_with_len($crate::entities::Null,$n)" in a) == 2)
+        and sum(1 for a in others if "new_unchecked($crate::entities::Null)" in a or "new_unchecked_with_len($crate::entities::Null,len)" in a) == 2)
+    # the macro's own `unsafe` blocks hold none of the caller's expressions (finding F17): no metavariable other than
+    # `$crate` occurs inside any `unsafe { .. }` of the macro body
+    blocks = []
+    for mm in re.finditer(r"unsafe\{", body):
+        d2, k2 = 1, mm.end()
+        while d2 and k2 < len(body):
+            d2 += {"{": 1, "}": -1}.get(body[k2], 0)
+            k2 += 1
+        blocks.append(body[mm.end():k2 - 1])
+    f["entities_macro_unsafe_holds_no_metavariable"] = bool(blocks) and all(
+        not re.search(r"\$(?!crate\b)", b_) for b_ in blocks)
     return f
 
 
